@@ -141,8 +141,18 @@ def closedPts (ps : List Coord) : Bool :=
 def lineOK (s : CSeq) : Bool := s.pts.length != 1
 /-- `LinearRing::validateConstruction` (after the base class check) -/
 def ringOK (s : CSeq) : Bool := s.pts.isEmpty || (closedPts s.pts && 3 ≤ s.pts.length)
-/-- `CircularString::validateConstruction` -/
-def circOK (s : CSeq) : Bool := s.pts.length != 2
+/-- The one constructor check that is *floating-point arithmetic*: the `SimpleCurve` constructor of a
+circular string computes its envelope (`CircularArcs::expandEnvelope` on every consecutive point triple:
+circum-centre, `Orientation::index`, `Quadrant::quadrant`), which throws `IllegalArgumentException` for some
+coordinate values (non-finite ordinates, overflowing centres, a centre that coincides with the third point).
+The model takes this as an oracle over the X/Y bit patterns of the sequence — `true` = the constructor throws.
+Theorems hold for *every* oracle; the driver supplies the `Float` transcription of the C++ (`Driver/C09.lean`). -/
+abbrev ArcOracle := List (UInt64 × UInt64) → Bool
+
+def xyOf (ps : List Coord) : List (UInt64 × UInt64) := ps.map (fun p => (p.x, p.y))
+
+/-- `CircularString::validateConstruction` + the envelope computation of the `SimpleCurve` constructor -/
+def circOK (arc : ArcOracle) (s : CSeq) : Bool := s.pts.length != 2 && !arc (xyOf s.pts)
 
 /-- the coordinate sequence of a simple curve -/
 def seqOf : G → CSeq
@@ -215,7 +225,7 @@ def readColl (rd : Order → List UInt8 → GRes) (p : G → Bool) (unit : Nat) 
     | .ok (gs, o, bs) => .ok ((mk gs, h.srid), o, bs)
 
 /-- the second half of `readGeometry` (the `switch`), given how nested geometries are read -/
-def readBody (rd : Order → List UInt8 → GRes) (h : Hdr) (bs : List UInt8) : GRes :=
+def readBody (arc : ArcOracle) (rd : Order → List UInt8 → GRes) (h : Hdr) (bs : List UInt8) : GRes :=
   match h.kind with
   | .point =>
     match readCoordSeq h.order h.hasZ h.hasM 1 bs with
@@ -228,7 +238,7 @@ def readBody (rd : Order → List UInt8 → GRes) (h : Hdr) (bs : List UInt8) : 
   | .circularString =>
     match readSizedSeq h.order h.hasZ h.hasM bs with
     | .error e => .error e
-    | .ok (s, bs) => if circOK s then .ok ((.circularString s, h.srid), h.order, bs) else .error .construct
+    | .ok (s, bs) => if circOK arc s then .ok ((.circularString s, h.srid), h.order, bs) else .error .construct
   | .polygon =>
     match readU32 h.order bs with
     | .error e => .error e
@@ -280,24 +290,24 @@ def readBody (rd : Order → List UInt8 → GRes) (h : Hdr) (bs : List UInt8) : 
   | .multiSurface => readColl rd isSurface 9 .multiSurface h bs
 
 /-- `WKBReader::readGeometry` -/
-def readGeom : Nat → Order → List UInt8 → GRes
+def readGeom (arc : ArcOracle) : Nat → Order → List UInt8 → GRes
   | 0, _, _ => .error .fuel
   | fuel + 1, o, bs =>
     match readHeader o bs with
     | .error e => .error e
-    | .ok (h, bs) => readBody (readGeom fuel) h bs
+    | .ok (h, bs) => readBody arc (readGeom arc fuel) h bs
 
 /-- `WKBReader::read(buf, size)`: the stream starts in machine (little endian) order; bytes after the
 geometry are ignored -/
-def read (bs : List UInt8) : Except Err Geom :=
-  match readGeom (bs.length + 1) .le bs with
+def read (arc : ArcOracle) (bs : List UInt8) : Except Err Geom :=
+  match readGeom arc (bs.length + 1) .le bs with
   | .error e => .error e
   | .ok ((g, srid), _, _) => .ok ⟨srid, g⟩
 
 /-- `WKBReader::readHEX` -/
-def readHex (cs : List Char) : Except Err Geom :=
+def readHex (arc : ArcOracle) (cs : List Char) : Except Err Geom :=
   match hexDecode cs with
   | none => .error .hex
-  | some bs => read bs
+  | some bs => read arc bs
 
 end GeosModel.WKB
